@@ -59,82 +59,92 @@ func checkC13(w *World, r *Report) {
 	ms := w.msgServerMethods()
 
 	// ---------------------------------------------------------------- EXT-APPEND
-	nw := 0
-	for _, fn := range w.Funcs {
-		if p := pkgOf(fn); p == nil || p.Path() == simPath || w.isGenerated(fn) {
-			continue // simulation is not consensus code; generated decoders rebuild records from bytes
+	// every write of an auction's EndTimes, in every calling context from the module's API (a constructor's or helper's
+	// parameter is what its callers pass): either the one-element list [msg.EndTime] of a creation, or the append form
+	type etVerdict struct {
+		in       ssa.Instruction
+		creation bool
+		bad      []string
+	}
+	byIn := map[ssa.Instruction]*etVerdict{}
+	var order []ssa.Instruction
+	for _, site := range tm.sitesWhere(w.apiRoots(), func(fr *Frame, in ssa.Instruction) bool {
+		if p := pkgOf(fr.Fn); p == nil || p.Path() == simPath || w.isGenerated(fr.Fn) {
+			return false // simulation is not consensus code; generated decoders rebuild records from bytes
 		}
-		fr := tm.Root(fn)
-		for _, b := range fn.Blocks {
-			for _, in := range b.Instrs {
-				recv, val, ok := endTimesWrite(w, in)
-				if !ok {
-					continue
+		_, _, ok := endTimesWrite(w, in)
+		return ok
+	}) {
+		fr, in := site.Fr, site.In
+		recv, val, _ := endTimesWrite(w, in)
+		v := byIn[in]
+		if v == nil {
+			v = &etVerdict{in: in}
+			byIn[in] = v
+			order = append(order, in)
+		}
+		vt := tm.OperandAt(fr, in, val)
+		rt := tm.OperandAt(fr, in, recv)
+		for rt.Op == "new" || rt.Op == "deref" {
+			rt = rt.Args[0]
+		}
+		// creation: the one-element list [msg.EndTime]
+		if vt.Op == "slice" && vt.Args[0].Op == "new" && vt.Args[0].Args[0].Op == "upd" && len(vt.Args[0].Args[0].Args) == 2 &&
+			vt.Args[0].Args[0].Args[1].Name == "[0]" && vt.Args[0].Args[0].Args[0].Op == "zero" {
+			v.creation = true
+			if !fieldOfParam(vt.Args[0].Args[0].Args[1].Args[0], "EndTime") {
+				v.bad = append(v.bad, "the one end time set at creation is "+vt.Args[0].Args[0].Args[1].Args[0].String()+", not the message's EndTime")
+			}
+			continue
+		}
+		if vt.Op == "param" {
+			continue // reached as an API function on its own (its callers' contexts are judged separately)
+		}
+		why := "the value written is " + vt.String()
+		ok2 := false
+		if vt.Op == "builtin" && vt.Name == "append" && len(vt.Args) == 2 {
+			cur := vt.Args[0]
+			switch {
+			case fieldBase(cur, "EndTimes") == nil || fieldBase(cur, "EndTimes").Key() != rt.Key():
+				why = "the list appended to is " + cur.String() + ", not the current EndTimes of the auction being written (" + rt.String() + ")"
+			default:
+				add := vt.Args[1]
+				// slice(new(upd(zero, [0]:=X)))
+				var x *Term
+				if add.Op == "slice" && add.Args[0].Op == "new" && add.Args[0].Args[0].Op == "upd" && len(add.Args[0].Args[0].Args) == 2 {
+					x = add.Args[0].Args[0].Args[1].Args[0]
 				}
-				nw++
-				construct := fmt.Sprintf("%s:EndTimes-write#%d", fnName(fn), nw)
-				vt := tm.OperandAt(fr, in, val)
-				rt := tm.OperandAt(fr, in, recv)
-				for rt.Op == "new" || rt.Op == "deref" {
-					rt = rt.Args[0]
+				switch {
+				case x == nil:
+					why = "more or other than one element is appended: " + add.String()
+				case !(x.Op == "call" && x.Name == "time.Time.AddDate" && len(x.Args) == 4):
+					why = "the appended end time is " + x.String() + ", not last.AddDate(0,0,period)"
+				case !(x.Args[0].Op == "last" && x.Args[0].Args[0].Key() == cur.Key()):
+					why = "the period is added to " + x.Args[0].String() + ", not to the last current end time"
+				case x.Args[1].Key() != "const<0>" || x.Args[2].Key() != "const<0>":
+					why = "years/months are added: " + x.String()
+				case !(fieldBase(x.Args[3], "ExtendedPeriod") != nil && fromColl(x.Args[3], "Params")):
+					why = "the number of days added is " + x.Args[3].String() + ", not Params.ExtendedPeriod read from the store"
+				default:
+					ok2 = true
 				}
-				// constructor: the composite literal of a constructor function (value is its parameter)
-				if vt.Op == "param" && fn.Signature.Results().Len() == 1 && namedOf(fn.Signature.Results().At(0).Type()) == w.BaseAuction {
-					// every caller passes a one-element list
-					var bad []string
-					for _, cs := range w.callSitesOf(fn) {
-						if p := pkgOf(cs.Parent()); p == nil || p.Path() != keeperPath {
-							continue
-						}
-						idx := -1
-						for i, pr := range fn.Params {
-							if pr.Name() == vt.Name {
-								idx = i
-							}
-						}
-						at := tm.OperandAt(tm.Root(cs.Parent()), cs, cs.Common().Args[idx])
-						one := at.Op == "slice" && at.Args[0].Op == "new" && at.Args[0].Args[0].Op == "upd" && len(at.Args[0].Args[0].Args) == 2 &&
-							at.Args[0].Args[0].Args[1].Name == "[0]" && fieldOfParam(at.Args[0].Args[0].Args[1].Args[0], "EndTime")
-						if !one {
-							bad = append(bad, fmt.Sprintf("%s passes %s", w.instrPos(cs), at.String()))
-						}
-					}
-					r.Check(len(bad) == 0, "EXT-APPEND", construct+":constructor", w.instrPos(in), "at creation EndTimes is the one-element list [msg.EndTime]", strings.Join(bad, "; "))
-					continue
-				}
-				ok2, why := false, "the value written is "+vt.String()
-				if vt.Op == "builtin" && vt.Name == "append" && len(vt.Args) == 2 {
-					cur := vt.Args[0]
-					switch {
-					case fieldBase(cur, "EndTimes") == nil || fieldBase(cur, "EndTimes").Key() != rt.Key():
-						why = "the list appended to is " + cur.String() + ", not the current EndTimes of the auction being written (" + rt.String() + ")"
-					default:
-						add := vt.Args[1]
-						// slice(new(upd(zero, [0]:=X)))
-						var x *Term
-						if add.Op == "slice" && add.Args[0].Op == "new" && add.Args[0].Args[0].Op == "upd" && len(add.Args[0].Args[0].Args) == 2 {
-							x = add.Args[0].Args[0].Args[1].Args[0]
-						}
-						switch {
-						case x == nil:
-							why = "more or other than one element is appended: " + add.String()
-						case !(x.Op == "call" && x.Name == "time.Time.AddDate" && len(x.Args) == 4):
-							why = "the appended end time is " + x.String() + ", not last.AddDate(0,0,period)"
-						case !(x.Args[0].Op == "last" && x.Args[0].Args[0].Key() == cur.Key()):
-							why = "the period is added to " + x.Args[0].String() + ", not to the last current end time"
-						case x.Args[1].Key() != "const<0>" || x.Args[2].Key() != "const<0>":
-							why = "years/months are added: " + x.String()
-						case !(fieldBase(x.Args[3], "ExtendedPeriod") != nil && fromColl(x.Args[3], "Params")):
-							why = "the number of days added is " + x.Args[3].String() + ", not Params.ExtendedPeriod read from the store"
-						default:
-							ok2 = true
-						}
-					}
-				}
-				r.Check(ok2, "EXT-APPEND", construct+":append", w.instrPos(in),
-					"the write stores append(current EndTimes, last(current EndTimes).AddDate(0,0,Params.ExtendedPeriod)) on the same auction", why)
 			}
 		}
+		if !ok2 {
+			v.bad = append(v.bad, why)
+		}
+	}
+	nw := 0
+	for _, in := range order {
+		v := byIn[in]
+		nw++
+		construct := fmt.Sprintf("%s:EndTimes-write#%d", fnName(in.Parent()), nw)
+		if v.creation && len(v.bad) == 0 {
+			r.Check(true, "EXT-APPEND", construct+":constructor", w.instrPos(in), "at creation EndTimes is the one-element list [msg.EndTime]", "")
+			continue
+		}
+		r.Check(len(v.bad) == 0, "EXT-APPEND", construct+":append", w.instrPos(in),
+			"the write stores append(current EndTimes, last(current EndTimes).AddDate(0,0,Params.ExtendedPeriod)) on the same auction (or, at creation, the one-element list [msg.EndTime])", strings.Join(dedupe(v.bad), "; "))
 	}
 
 	// ---------------------------------------------------------------- EXT-BOUND
@@ -217,37 +227,43 @@ func checkC13(w *World, r *Report) {
 		"with rounds left: extend iff last matched length = 0 or (1 − cur/last) ≥ rate; otherwise settle ["+strings.Join(table, "; ")+"]", strings.Join(bad, "; "))
 	// shape of the compared quantity
 	shapeOK, shapeWhy := false, "no comparison against ExtendedRoundRate found"
-	fr := tm.Root(settle)
-	for _, b := range settle.Blocks {
-		for _, in := range b.Instrs {
-			c, ok := in.(*ssa.Call)
-			if !ok {
-				continue
-			}
-			if _, isCmp := intCmp[callKey(&c.Call)]; !isCmp || len(c.Call.Args) != 2 {
-				continue
-			}
-			l, rt := tm.Of(fr, c.Call.Args[0]), tm.Of(fr, c.Call.Args[1])
-			if fieldBase(rt, "ExtendedRoundRate") == nil {
-				continue
-			}
-			// l = Sub(OneDec, Quo(NewDec(cur), NewDec(last)))
-			shapeWhy = "the quantity compared with the rate is " + l.String()
-			if l.Op == "call" && strings.HasSuffix(l.Name, "LegacyDec.Sub") && len(l.Args) == 2 && strings.HasSuffix(l.Args[0].Name, "LegacyOneDec") {
-				q := l.Args[1]
-				if q.Op == "call" && strings.HasSuffix(q.Name, "LegacyDec.Quo") && len(q.Args) == 2 {
-					cur, last := q.Args[0], q.Args[1]
-					curOK := cur.Op == "call" && strings.HasSuffix(cur.Name, "LegacyNewDec") && fieldBase(cur.Args[0], "MatchedLen") != nil
-					lastOK := last.Op == "call" && strings.HasSuffix(last.Name, "LegacyNewDec") && fromColl(last.Args[0], "MatchedBidsLen")
-					if curOK && lastOK {
-						shapeOK = true
-					} else {
-						shapeWhy = "numerator " + cur.String() + " / denominator " + last.String() + " are not (current matched length, stored last matched length)"
-					}
+	// the comparison may live in the settlement routine or in a helper it calls, with the rate on either side
+	tm.walkContexts([]*ssa.Function{settle}, func(fr *Frame, in ssa.Instruction) {
+		c, ok := in.(*ssa.Call)
+		if !ok {
+			return
+		}
+		if _, isCmp := intCmp[callKey(&c.Call)]; !isCmp || len(c.Call.Args) != 2 {
+			return
+		}
+		l, rt := tm.Of(fr, c.Call.Args[0]), tm.Of(fr, c.Call.Args[1])
+		if fieldBase(rt, "ExtendedRoundRate") == nil {
+			l, rt = rt, l
+		}
+		if fieldBase(rt, "ExtendedRoundRate") == nil || fieldBase(l, "ExtendedRoundRate") != nil {
+			return
+		}
+		// l = Sub(OneDec, Quo(NewDec(cur), NewDec(last)))
+		shapeWhy = "the quantity compared with the rate is " + l.String()
+		if l.Op == "call" && strings.HasSuffix(l.Name, "LegacyDec.Sub") && len(l.Args) == 2 && strings.HasSuffix(l.Args[0].Name, "LegacyOneDec") {
+			q := l.Args[1]
+			if q.Op == "call" && strings.HasSuffix(q.Name, "LegacyDec.Quo") && len(q.Args) == 2 {
+				cur, last := q.Args[0], q.Args[1]
+				// the current matched length: the count the matching just produced (its MatchedLen, or len of its
+				// MatchedBids), never the stored value
+				curOK := cur.Op == "call" && strings.HasSuffix(cur.Name, "LegacyNewDec") && !cur.Any(func(x *Term) bool { return fromColl(x, "MatchedBidsLen") }) &&
+					cur.Any(func(x *Term) bool {
+						return isField(x, "MatchedLen") || (x.Op == "builtin" && x.Name == "len" && len(x.Args) == 1 && x.Args[0].Any(func(y *Term) bool { return isField(y, "MatchedBids") }))
+					})
+				lastOK := last.Op == "call" && strings.HasSuffix(last.Name, "LegacyNewDec") && fromColl(last.Args[0], "MatchedBidsLen")
+				if curOK && lastOK {
+					shapeOK = true
+				} else {
+					shapeWhy = "numerator " + cur.String() + " / denominator " + last.String() + " are not (current matched length, stored last matched length)"
 				}
 			}
 		}
-	}
+	})
 	r.Check(shapeOK, "EXT-RULE", fnName(settle)+":ratio", w.pos(settle.Pos()), "the quantity compared with the rate is 1 − Dec(current matched length)/Dec(stored last matched length)", shapeWhy)
 
 	// ---------------------------------------------------------------- EXT-ORDER
